@@ -347,6 +347,14 @@ def check_property(prop, tier, seed, replay=None):
         extra = None
         if r.get('ub') is not None:
             extra = expand_failure(r, m, seed)
+        elif m.get('kani'):
+            try:
+                import kani_run
+                pb = kani_run.playback(REPO, m['obligation'].split('/')[-1])
+                if pb:
+                    extra = {'counterexample': pb, 'note': 'concrete failing input found by Kani (values of the symbolic inputs of the harness, in order)'}
+            except Exception as e:
+                extra = {'note': 'Kani concrete playback failed: %s' % e}
         path = write_replay(prop, m, r, extra)
         tail = 'no-failing-input-found'
         if extra and extra.get('counterexample'):
